@@ -81,8 +81,8 @@ Print Assumptions C14_arming_own_clock_only.
 (* non-vacuity: a concrete clock state meets the hypotheses *)
 Example C14_nonvacuous :
   let t := {| wtime := 60000; btime := 1; winc := 1000; binc := 0; mtime := 0 |} in
-  mtime t = 0 /\ clock_ok t White /\ hard_limit t White = 10000.
-Proof. cbv. repeat split; discriminate. Qed.
+  mtime t = 0 /\ clock_ok t White /\ andb (0 <? hard_limit t White) (hard_limit t White <=? 60000 - TimeSafetyMargin) = true.
+Proof. split; [reflexivity|]. split; [cbv; repeat split; discriminate|]. vm_compute. reflexivity. Qed.
 
 (* a ponder search of Black, 1 s against 10 min, ponderhit after 250 ms, three plies below the root,
    isready every 100 ms, stop after a minute: aborted 132 ms after the ponderhit; the same with the
